@@ -417,22 +417,59 @@ def chk_purity(T, v, M, rng):
             out.append(fail('purity', T, v, 'interleaved streaming decoders disagree with decoding alone'))
     except Exception as ex:
         out.append(fail('purity', T, v, 'interleaved streaming decoders raised %s: %s' % (type(ex).__name__, str(ex)[:100])))
-    # 4. debug logging on/off
+    # 4. debug logging on/off: the same calls, the same outcomes (values, remainders, errors)
     n += 1
     from pyasn1 import debug
+    import tempfile
+    seg = None
     try:
-        sink = []
-        debug.setLogger(debug.Debug('all', printer=sink.append))
+        seg = be.encode(val, defMode=False, maxChunkSize=1)       # segmented strings, indefinite lengths
+    except Exception:
+        pass
+
+    def calls():
+        res = []
+
+        def one(f):
+            try:
+                r_ = f()
+                res.append(('ok', r_))
+            except error.PyAsn1Error as ex_:
+                res.append(('library-error', type(ex_).__name__))
+            except Exception as ex_:
+                res.append(('error', type(ex_).__name__, str(ex_)[:80]))
+
+        def dec_der(b_):
+            r_, rest_ = bd.decode(b_, asn1Spec=spec)
+            return de.encode(r_), bytes(rest_)
+
+        def dec_file(b_):
+            with tempfile.TemporaryFile() as fh:                   # a buffered file hands out what it has, not what is asked
+                fh.write(b_)
+                fh.seek(0)
+                r_, rest_ = bd.decode(fh, asn1Spec=spec)
+                return de.encode(r_)
+        one(lambda: dec_der(e))
+        one(lambda: be.encode(val, defMode=False))
+        if seg is not None:
+            one(lambda: dec_der(seg))
+            one(lambda: dec_file(seg + e))
+        return res
+    try:
+        off = calls()
+        debug.setLogger(debug.Debug('all', printer=lambda *a_: None))
         try:
-            rl, restl = bd.decode(e, asn1Spec=spec)
-            el = be.encode(val, defMode=False)
+            on = calls()
         finally:
             debug.setLogger(None)
-        if de.encode(rl) != d0 or restl or el != be.encode(val, defMode=False):
-            out.append(fail('purity', T, v, 'results differ with debug logging switched on'))
+        if on != off:
+            k_ = [i_ for i_ in range(len(off)) if on[i_] != off[i_]][0]
+            out.append(fail('purity', T, v, 'call #%d gives %r with debug logging switched on, %r without' % (
+                k_, on[k_][:2] if on[k_][0] != 'ok' else 'a result', off[k_][:2] if off[k_][0] != 'ok' else 'another result')))
     except Exception as ex:
         debug.setLogger(None)
-        out.append(fail('purity', T, v, 'with debug logging on: %s: %s' % (type(ex).__name__, str(ex)[:150])))
+        out.append(fail('purity', T, v, 'logging on/off comparison: harness error %s: %s' % (type(ex).__name__, str(ex)[:150]),
+                        harness_error=True))
     return out, n
 
 
@@ -748,6 +785,10 @@ def _run_chunk(args):
 
 def run(names, tier, seed, jobs=16):
     pairs = U.universe(seed=seed, tier=tier, include_long=('native' in names))
+    if 'purity' in names:
+        # an untagged ANY larger than what a buffered file hands out at a time (the log line of its decoder used to look
+        # ahead for all of it)
+        pairs.append((U.T('ANY'), b'\x04\x82\x4e\x20' + b'x' * 20000))
     chunks = [pairs[i::jobs * 2] for i in range(jobs * 2)]
     chunks = [c for c in chunks if c]
     ctx = mp.get_context('fork')
